@@ -28,8 +28,8 @@ def _conformance(cov, harness, family, tier, jobs):
 def run(tier, seed, jobs, family=FAMILY, rule=None):
     cov, viol, harness = run_family(family, tier, configs(tier), jobs,
                                     max_execs=20000 if tier == "quick" else 30000, seed=seed,
-                                    budget=None if tier == "quick" else 10_000_000,
-                                    first_cap=1500)
+                                    budget=None if tier == "quick" else 4_000_000,
+                                    first_cap=500)
     cov["rule"] = rule or (
         "every program of the task-tree family (2-3 children from a menu of 10 behaviours, host "
         "tail, children spawning children, nested groups, spawn after cancel; cancel sources: "
